@@ -99,6 +99,38 @@ def handle(case):
             x, y = _mk(a, False), _mk(b, False)
             rows.append([f, a, b, _dt_out(lambda: OPFN[f](x, y))])
         return {"rows": rows}
+    if k == "fn_dtypes":
+        # result dtype of non-element-wise functions over several shapes of one operand dtype (placeholder and data-holding)
+        CALLS = {"sum": lambda x: ndx.sum(x), "prod": lambda x: ndx.prod(x), "mean": lambda x: ndx.mean(x), "var": lambda x: ndx.var(x),
+                 "std": lambda x: ndx.std(x), "min": lambda x: ndx.min(x), "max": lambda x: ndx.max(x), "all": lambda x: ndx.all(x),
+                 "any": lambda x: ndx.any(x), "cumulative_sum": lambda x: ndx.cumulative_sum(ndx.reshape(x, [-1])), "argmax": lambda x: ndx.argmax(x),
+                 "argmin": lambda x: ndx.argmin(x), "sort": lambda x: ndx.sort(ndx.reshape(x, [-1])), "argsort": lambda x: ndx.argsort(ndx.reshape(x, [-1])),
+                 "reshape": lambda x: ndx.reshape(x, [-1]), "flip": lambda x: ndx.flip(x), "expand_dims": lambda x: ndx.expand_dims(x, 0),
+                 "clip": lambda x: ndx.clip(x, min=0, max=1), "where_self": lambda x: ndx.where(x == x, x, x), "copy": lambda x: x.copy(),
+                 "sum_axis_last": lambda x: ndx.sum(x, axis=-1) if x.ndim else ndx.sum(x, axis=None), "sum_keepdims": lambda x: ndx.sum(x, keepdims=True),
+                 "mean_axis0": lambda x: ndx.mean(x, axis=0) if x.ndim else ndx.mean(x), "max_keepdims": lambda x: ndx.max(x, keepdims=True)}
+        rows = []
+        for f in case["funcs"]:
+            for d in case["dtypes"]:
+                outs = []
+                for shp in case["shapes"]:
+                    for eager in (False, True):
+                        if eager and list(shp) not in ([], [2, 3]):
+                            outs.append("!skipped")
+                            continue
+
+                        def mk():
+                            if not eager:
+                                return ndx.array(shape=tuple(shp), dtype=nd.dt(d))
+                            n = int(np.prod(shp)) if shp else 1
+                            base = nd.np_dtype(d)
+                            v = (np.array(["a", "b", "c", "d", "e", "f"])[:n] if d.endswith("utf8") else (np.arange(n) % 2).astype(base)).reshape(shp)
+                            if nd.is_nullable(d):
+                                v = np.ma.masked_array(v, mask=(np.arange(n) % 3 == 1).reshape(shp))
+                            return ndx.asarray(v)
+                        outs.append(_dt_out(lambda: CALLS[f](mk())))
+                rows.append([f, d, outs])
+        return {"rows": rows}
     if k == "can_cast":
         rows = []
         for a, b in case["pairs"]:
